@@ -42,6 +42,20 @@ func Target(xs []int, s string) Iter[int] {
 	return nil
 }
 
+func pair(a int) [2]int { return [2]int{a, a + 1} }
+
+// two ranges over non-addressable array operands in one block, the first without a yield
+func Target3() Iter[int] {
+	n := 0
+	for _, v := range pair(1) {
+		n += v
+	}
+	for _, v := range pair(n) {
+		Yield(v)
+	}
+	return nil
+}
+
 // generator literals with comments, delegation
 func Target2(n int) Iter[string] {
 	// a comment before the literal
@@ -101,7 +115,7 @@ type res15 struct {
 
 // temporaries of lowered range statements are hoisted into the enclosing block, where two equal names
 // clash; the `for ɪʇ := g; ...` of a consumer loop is scoped to its own for statement and cannot
-var iterTmpRe = regexp.MustCompile(`(ɪʇ\d*) := \S+\.New(?:String|Slice|Map|Chan|Integer)Iter\(`)
+var iterTmpRe = regexp.MustCompile(`(ɪʇ\d*) := \S+\.New(?:String|Slice|Map|Chan|Integer)Iter\(|(ɐɹɹ\d*) := `)
 
 func run15(c cfg15, drv string) res15 {
 	r := res15{cfg: c}
@@ -256,7 +270,7 @@ func C15(tier string) *core.Report {
 		seen := map[string]int{}
 		for fi, part := range strings.Split(rs.target, "\n// ==== lits.go\n") {
 			for _, m := range iterTmpRe.FindAllStringSubmatch(part, -1) {
-				seen[fmt.Sprint(fi, ":", m[1])]++
+				seen[fmt.Sprint(fi, ":", m[1], m[2])]++
 			}
 		}
 		for name, n := range seen {
